@@ -38,6 +38,13 @@ K_TOL = 2e3
 K_FS = 2e2
 EPS64 = float(np.finfo(float).eps)
 ZS = [0.0, 1.5, -2.0, 40.0]
+SHIFTS_NZ = [[1, 0], [0.5, 1.25], [-2, 3]]      # one axis only / fractional, sx != sy / integer both axes, in samples, (x, y) order
+
+
+def shift_cls(sh):
+    if sh[0] == 0 and sh[1] == 0:
+        return 'noshift'
+    return 'shift-int' if float(sh[0]).is_integer() and float(sh[1]).is_integer() else 'shift-frac'
 
 
 def par(n):
@@ -230,6 +237,17 @@ def run_band(case, seed, R):
                     Br = op(R, lambda a: f2(a, Qb, n), N, f'{n2}:band-complete-return:real-input:{cell}:p{prec}', rdt, n)   # noqa
                     if Br is not None:
                         R.expect_close(Br, B, tol, f'{n2}:real-input:{cell}:p{prec}', f'{n2}({N} -> {n}, Q={Qb}): operator from {np.dtype(rdt)} deltas != operator from complex deltas')
+                    # non-zero shifts: the same shift (in samples) on both legs, full band: energy and round trip as without shift
+                    for sh in SHIFTS_NZ:
+                        sh = tuple(sh)
+                        sc = shift_cls(sh)
+                        As = op(R, lambda a: f1(a, Q, samples_out, sh), n, f'{n1}:band-complete:{sc}:{cell}:p{prec}', cdt, N)   # noqa
+                        if As is None:
+                            continue
+                        expect_identity(R, gram(As), tol, f'{n1}:band-complete:energy:{sc}:{cell}:p{prec}', f'{n1}({n} -> {N}, Q={Q}, shift={sh}): A^H A != I on the full band')
+                        Bs = op(R, lambda a: f2(a, Qb, n, sh), N, f'{n2}:band-complete-return:{sc}:{cell}:p{prec}', cdt, n)   # noqa
+                        if Bs is not None:
+                            expect_identity(R, Bs @ As, tol, f'{n2}({n1}):band-complete:{sc}:{cell}:p{prec}', f'{n2}({n1}(x, Q={Q}, {N}, shift={sh}), Q={Qb}, {n}, shift={sh}) != x')
                     x = dense(n, seed, 5).astype(cdt)
                     y = R.call(f1, x.copy(), Q, N)
                     if y is FAILED:
@@ -276,6 +294,18 @@ def run_band_public(case, seed, R):
                 continue
             expect_identity(R, B @ A, tol, f'{names[1]}({names[0]}):{method}:band-complete:{cell}',
                             f'{names[1]}({names[0]}(x)) != x for {n} -> {M}x{M} -> {n}, dx={dx}, dxo={dxo}')
+            # non-zero shifts, given in the physical units of each leg's output plane (the same number of samples on both legs)
+            g1, g2 = (propagation.focus_fixed_sampling, propagation.unfocus_fixed_sampling) if fwd else (propagation.unfocus_fixed_sampling, propagation.focus_fixed_sampling)
+            for sh in SHIFTS_NZ:
+                sc = shift_cls(sh)
+                s1, s2 = (sh[0] * dxo, sh[1] * dxo), (sh[0] * dx, sh[1] * dx)
+                As = op(R, lambda a: g1(a, dx, efl, wvl, dxo, M, shift=s1, method=method), n, f'{names[0]}:{method}:band-complete:{sc}:{cell}', complex, (M, M))   # noqa
+                if As is None:
+                    continue
+                expect_identity(R, gram(As), tol, f'{names[0]}:{method}:band-complete:energy:{sc}', f'{names[0]}({n} -> {M}x{M} full band, shift {sh} samples): A^H A != I')
+                Bs = op(R, lambda a: g2(a, dxo, efl, wvl, dx, n, shift=s2, method=method), (M, M), f'{names[1]}:{method}:band-complete-return:{sc}:{cell}', complex, n)   # noqa
+                if Bs is not None:
+                    expect_identity(R, Bs @ As, tol, f'{names[1]}({names[0]}):{method}:band-complete:{sc}', f'{names[1]}({names[0]}(x)) != x with shift {sh} samples on both legs, {n} -> {M}x{M} -> {n}')
             # input-dtype alphabet (complex128 above): real and single-precision storage of the same field
             for dt in (np.float64, np.float32, np.complex64):
                 t = tol if dt is np.float64 else K_TOL * eps_of(32)
@@ -648,6 +678,107 @@ def hb_check(st, init, hist, R):
 
 
 # ---------------------------------------------------------------------------------------------
+# history over the shared executors and the configured precision: shifted / unshifted transforms of the same lengths,
+# precision switches, repeated calls, clear()
+
+#            name: (method, n, N, shift)     band complete: N = n * Q
+XCALLS = {
+    'm_shift':  ('mdft', (4, 6), (6, 6), (1, 0.5)),
+    'm_plain':  ('mdft', (4, 6), (6, 6), (0, 0)),
+    'm_square': ('mdft', (6, 6), (6, 6), (0, 0)),       # input and output lengths equal (one coordinate grid in two roles)
+    'c_shift':  ('czt', (4, 6), (6, 6), (1, 0.5)),
+    'c_plain':  ('czt', (4, 6), (6, 6), (0, 0)),
+    'c_square': ('czt', (6, 6), (6, 6), (0, 0)),
+}
+XEVENTS = ['p32', 'p64', 'mdft.clear', 'czt.clear'] + sorted(XCALLS)
+
+
+class XState:
+    def __init__(self, seed):
+        self.seed = seed
+        self.trace = []
+        self.last = None
+
+
+def hx_fresh(init, seed):
+    reset_executors(init.get('prec', 64))
+    return XState(seed)
+
+
+def hx_events(init, hist, st):
+    return XEVENTS
+
+
+def _cur_prec():
+    return 32 if np.dtype(config.precision) == np.dtype(np.float32) else 64
+
+
+def _xcall(R, name, seed, hygiene=True):
+    method, n, N, sh = XCALLS[name]
+    Q = (N[0] / n[0], N[1] / n[1])
+    x = dense(n, seed, 51)
+    y = R.call(engine(method, True), x, Q, N, sh, sig=f'history:{ENAME[(method, True)]}:exception', hygiene=hygiene)
+    b = FAILED if y is FAILED else R.call(engine(method, False), y, 1, n, sh, sig=f'history:{ENAME[(method, False)]}:exception', hygiene=hygiene)
+    # inverse first
+    yi = R.call(engine(method, False), x, Q, N, sh, sig=f'history:{ENAME[(method, False)]}:exception', hygiene=hygiene)
+    bi = FAILED if yi is FAILED else R.call(engine(method, True), yi, 1, n, sh, sig=f'history:{ENAME[(method, True)]}:exception', hygiene=hygiene)
+    return x, (y, b, yi, bi)
+
+
+def hx_apply(st, ev, R):
+    st.trace = st.trace + [ev]
+    st.last = None
+    if ev == 'p32':
+        config.precision = 32
+    elif ev == 'p64':
+        config.precision = 64
+    elif ev == 'mdft.clear':
+        fttools.mdft.clear()
+    elif ev == 'czt.clear':
+        fttools.czt.clear()
+    else:
+        st.last = (ev, _xcall(R, ev, st.seed))
+    return st
+
+
+def hx_check(st, init, hist, R):
+    if st.last is None:
+        R.outcome('config')
+        return
+    ev, (x, outs) = st.last
+    method, n, N, sh = XCALLS[ev]
+    prec = _cur_prec()
+    after = f'after {hist[:-1]} (initial precision {init.get("prec", 64)})'
+    tol = K_TOL * eps_of(prec) * 10
+    e0 = energy(x)
+    sc = shift_cls(sh)
+    y, b, yi, bi = outs
+    for first, back, tag in ((y, b, 'forward-first'), (yi, bi, 'inverse-first')):
+        if first is FAILED or back is FAILED:
+            continue
+        R.expect_close(energy(first) if np.shape(first) == N else np.nan, e0, tol * e0, f'history:{method}:energy:{sc}:p{prec}', f'{ev} ({tag}): energy on the full band {after}')
+        R.expect_close(back, x, tol, f'history:{method}:roundtrip:{sc}:p{prec}', f'{ev} ({tag}): round trip does not return the field {after}')
+    # the same call in a fresh state of the executors under the same precision
+    reset_executors(prec)
+    try:
+        _, fresh = _xcall(R, ev, st.seed, hygiene=False)
+        for got, want, what in zip(outs, fresh, ('forward', 'return', 'inverse-first', 'its return')):
+            if got is FAILED or want is FAILED:
+                continue
+            R.expect(np.asarray(got).dtype == np.asarray(want).dtype, f'history:{method}:depends-on-prior-calls:dtype', f'{ev} {what}: dtype {np.asarray(got).dtype} {after}, {np.asarray(want).dtype} in a fresh state')
+            R.expect_close(got, np.asarray(want), tol, f'history:{method}:depends-on-prior-calls:{sc}:p{prec}', f'{ev} {what} {after} differs from the same call on fresh executors')
+    finally:
+        config.precision = 64
+    R.nontrivial(len(hist) > 1)
+    R.outcome(f'call:{method}:p{prec}')
+
+
+def hx_canon(st):
+    # the whole trace: state hidden in module-level caches the harness does not know about must not be merged away
+    return json.dumps([_cur_prec()] + st.trace)
+
+
+# ---------------------------------------------------------------------------------------------
 
 def plan(tier, seed):
     B = 6 if tier == 'quick' else 9
@@ -676,10 +807,10 @@ def plan(tier, seed):
                   'pad2d\'s operator must be a 0/1 partial permutation; one seeded dense field through the functions and the Wavefront methods (energy, round trip, dx restored); non-trivial when the array has more than one sample', reset=rs),
         ScopeUnit('band_complete', band_cases, run_band,
                   f'every (input shape n, output shape N) with n in [1..{B}]^2 and n_axis <= N_axis <= {B} (real per-axis Q = N/n, integer and not) x {{mdft, czt}} x {{forward first, inverse first}} x precision {{64,32}}: '
-                  'operator of the first leg must satisfy A^H A = I, return leg (Q chosen so that N*Q\' = n*Q) times first leg must be I; input-dtype alphabet {complex128, float64} at precision 64 / {complex64, float32} at 32: the operators of both legs built from REAL-dtype deltas must equal those from complex deltas; seeded dense field energy and round trip', reset=rs),
+                  'operator of the first leg must satisfy A^H A = I, return leg (Q chosen so that N*Q\' = n*Q) times first leg must be I, for shift (0,0) and, with the same shift on both legs, shifts (1,0), (0.5,1.25), (-2,3) samples; input-dtype alphabet {complex128, float64} at precision 64 / {complex64, float32} at 32: the operators of both legs built from REAL-dtype deltas must equal those from complex deltas; seeded dense field energy and round trip', reset=rs),
         ScopeUnit('band_complete_public', pub_cases, run_band_public,
                   f'every pupil shape in [1..{B}]^2 x focal grid M x M with max(n) <= M <= {B + 1} x 2 (wavelength, efl, dx) unit sets x {{mdft, czt}} x both directions: focus_fixed_sampling / unfocus_fixed_sampling called with the physical '
-                  'output spacing wvl*efl/(dx*M) that makes the band complete; A^H A = I and return o forward = I on operator matrices; input-dtype alphabet {complex128, complex64, float64, float32}: both legs\' operators from every dtype equal the complex128 ones; Wavefront methods on a dense field', reset=rs),
+                  'output spacing wvl*efl/(dx*M) that makes the band complete; A^H A = I and return o forward = I on operator matrices, for shift 0 and for shifts (1,0), (0.5,1.25), (-2,3) samples given in each leg\'s physical output units; input-dtype alphabet {complex128, complex64, float64, float32}: both legs\' operators from every dtype equal the complex128 ones; Wavefront methods on a dense field', reset=rs),
         ScopeUnit('free_space', free_cases, run_free,
                   f'every shape in [1..{Bf}]^2 x wvl in {{0.5,1.55}} x dx in {{0.01,0.25}} x precision {{64,32}}; inside every case z ranges over {ZS}, all 16 ordered pairs (z1,z2), all sums and negations: '
                   '|tf| = 1, tf(0) = 1, tf(z1) tf(z2) = tf(z1+z2) on the grid and the doubled grid; operator matrices of angular_spectrum with Q=1 and Q=2 (padding form): AS(0) = id / zero padding, A^H A = I, AS(-z) AS(z) = I, '
@@ -691,6 +822,11 @@ def plan(tier, seed):
         HistoryUnit('band_complete_history', [{}], h_fresh, hb_events, hb_apply, hb_check, h_canon, 2,
                     f'every history of length <= 2 over {{mdft, czt}} x Q in {{2, (2,3)}} x shapes {BAND_SHAPES} (shapes that share ONE axis\' parameters with a different partner axis) on the SHARED module-level executors, no clear() in between; '
                     'an event runs forward, return and inverse-first transforms of a dense field; in every state the LAST geometry\'s operators (all complex deltas, both orders) must equal the textbook sum, satisfy A^H A = I on the full band and return o forward = I'),
+        HistoryUnit('executor_history', [{'prec': 64}, {'prec': 32}], hx_fresh, hx_events, hx_apply, hx_check, hx_canon, 3 if tier == 'quick' else 4,
+                    f'every history up to depth {3 if tier == "quick" else 4} from initial precision 64 and 32 over events {XEVENTS} on the SHARED mdft / czt executors and config.precision: shifted and unshifted band-complete '
+                    'transforms of the same lengths (and a square one whose input and output grids coincide), precision switches, repeated calls, clear(); a call event runs forward -> inverse and inverse -> forward '
+                    'with the same shift on a dense field; states are never merged (canonical form = the trace); in every state after a call: energy conserved and round trip = field at 2e4*eps(current precision), '
+                    'and all four outputs equal (values at that tolerance, and dtype) those of the same call after reset_executors under the same precision'),
         ScopeUnit('fft_route_large', fl_cases, run_fft_large,
                   f'threshold alphabet, NOT closed over the data dimension: every shape with both sides in {sides} at Q=1 and both sides in {small_sides} at Q=2 (every parity and residue mod 4 on each axis, '
                   'array sizes below and above 128*128 and 256*256) x precision {64,32} x 4 probe fields (impulse at the origin sample, at both far corners, seeded dense): energy of focus / unfocus, '
